@@ -1,5 +1,6 @@
 import EvyV.Props.EvalCore
 import EvyV.Props.Frame
+import EvyV.Props.TwoRun
 /-
 C14 — running programs stay interruptible and stop cleanly.
 
@@ -90,6 +91,157 @@ theorem only_summary_follows (st : St F) :
   split
   · left; rfl
   · split <;> (right; exact ⟨_, rfl⟩)
+
+/-! ### the stopped run against the uninterrupted run (Props/TwoRun.lean) -/
+
+/-- the effects in the order in which they happened -/
+def effects (st : St F) : List (Effect F) := st.trace.reverse
+
+theorem TrLe.prefix {a b : St F} (h : TrLe a b) : effects a <+: effects b := by
+  obtain ⟨suf, hs⟩ := h
+  exact ⟨suf.reverse, by simp [effects, hs]⟩
+
+theorem testReport_ov (sa : Option Nat) (x : Bool) (b : St F) : testReport (ov sa x b) = ov sa x (testReport b) := by
+  unfold testReport
+  by_cases h1 : (b.noSummary || decide (b.testTotal = 0)) = true
+  · have h1' : ((ov sa x b).noSummary || decide ((ov sa x b).testTotal = 0)) = true := h1
+    rw [if_pos h1', if_pos h1]
+  · have h1' : ¬ ((ov sa x b).noSummary || decide ((ov sa x b).testTotal = 0)) = true := h1
+    rw [if_neg h1', if_neg h1]
+    by_cases h2 : b.testFails > 0
+    · have h2' : (ov sa x b).testFails > 0 := h2
+      simp only [if_pos h2', if_pos h2]; rfl
+    · have h2' : ¬ (ov sa x b).testFails > 0 := h2
+      simp only [if_neg h2', if_neg h2]; rfl
+
+theorem ov_false (sa : Option Nat) (b : St F) : ov sa false b = { b with stopAt := sa } := by
+  simp [ov]
+
+/-- **the effects of a stopped run are a prefix of those of the uninterrupted run** (only the test summary
+may follow). Run the program from the same state once with the request "raise the stop flag during yield k"
+and once without any request, with any step budget. Then both runs end with the test report applied to
+states a' and b', and
+* either the request was never reached (or both runs ended before it mattered): same result, and a' is
+  b' but for the request and the flag;
+* or the first run ends with `stopped`, its flag up, and everything it did up to then is an initial part, in
+  order, of what the uninterrupted run does. -/
+theorem stopped_run_effects_are_a_prefix (k : Nat) (fuel : Nat) (b : St F) (hb : b.stopAt = none) :
+    ∃ a' b', (runProgram ops ext prog fuel { b with stopAt := some k }).2 = testReport a' ∧
+      (runProgram ops ext prog fuel b).2 = testReport b' ∧
+      (((runProgram ops ext prog fuel { b with stopAt := some k }).1 = (runProgram ops ext prog fuel b).1 ∧
+          ∃ x, a' = ov (some k) x b') ∨
+       ((runProgram ops ext prog fuel { b with stopAt := some k }).1 = .err .stopped ∧ a'.stopped = true ∧
+          effects a' <+: effects b')) := by
+  rw [← ov_false (some k) b]
+  by_cases hst : (b.stopped || false) = true
+  · -- already stopped: both runs end at the first tick
+    have hbs : b.stopped = true := by simpa using hst
+    refine ⟨ov (some k) false b, b, ?_, ?_, Or.inl ⟨?_, false, rfl⟩⟩
+    · unfold runProgram; rw [tick_ov_stopped (some k) false b hst]
+    · unfold runProgram; rw [tick_stopped b hbs]
+    · unfold runProgram; rw [tick_ov_stopped (some k) false b hst, tick_stopped b hbs]
+  · obtain ⟨b1, x1, htb, hta, hb1⟩ := tick_two (some k) false b hb (by simpa using hst)
+    unfold runProgram
+    rw [hta, htb]
+    simp only
+    have h := (two_runs ops ext prog (some k) fuel).stmts prog.stmts b1 x1 hb1
+    generalize execStmts ops ext prog fuel prog.stmts (ov (some k) x1 b1) = ra at h ⊢
+    generalize execStmts ops ext prog fuel prog.stmts b1 = rb at h ⊢
+    cases h with
+    | ok c x2 a t ha ht =>
+      subst ha
+      simp only [testReport_ov, ov_testFails]
+      refine ⟨ov (some k) x2 t, t, ?_, ?_, Or.inl ⟨?_, x2, rfl⟩⟩
+      · split <;> simp only [testReport_ov]
+      · split <;> rfl
+      · split <;> rfl
+    | err o x2 a t ha ht =>
+      subst ha
+      exact ⟨ov (some k) x2 t, t, rfl, rfl, Or.inl ⟨rfl, x2, rfl⟩⟩
+    | stop s rb hs htr =>
+      cases rb with
+      | err o t => exact ⟨s, t, rfl, rfl, Or.inr ⟨rfl, hs, TrLe.prefix htr⟩⟩
+      | ok c t => exact ⟨s, t, rfl, by simp only; split <;> rfl, Or.inr ⟨rfl, hs, TrLe.prefix htr⟩⟩
+
+/-- what the stopped run did is, in particular, an initial part of EVERYTHING the uninterrupted run does
+(its own summary included) -/
+theorem stopped_run_effects_in_full_run (k : Nat) (fuel : Nat) (b : St F) (hb : b.stopAt = none)
+    (hs : (runProgram ops ext prog fuel { b with stopAt := some k }).1 = .err .stopped)
+    (hne : (runProgram ops ext prog fuel b).1 ≠ .err .stopped) :
+    ∃ a', (runProgram ops ext prog fuel { b with stopAt := some k }).2 = testReport a' ∧
+      effects a' <+: effects (runProgram ops ext prog fuel b).2 := by
+  obtain ⟨a', b', h1, h2, h3⟩ := stopped_run_effects_are_a_prefix ops ext prog k fuel b hb
+  refine ⟨a', h1, ?_⟩
+  rcases h3 with ⟨he, _⟩ | ⟨_, _, hp⟩
+  · rw [hs] at he; exact absurd he.symm hne
+  · rw [h2]
+    refine List.IsPrefix.trans hp ?_
+    rcases only_summary_follows b' with h | ⟨s, h⟩
+    · exact ⟨[], by simp [effects, h]⟩
+    · exact ⟨[.print s], by simp [effects, h]⟩
+
+theorem bindPayload_ov (sa : Option Nat) (x : Bool) : ∀ (ps : List (Str × Ty)) (vs : List (Val F)) (b : St F),
+    bindPayload ps vs (ov sa x b) = (bindPayload ps vs b).map (ov sa x) := by
+  intro ps
+  induction ps with
+  | nil => intro vs b; cases vs <;> rfl
+  | cons p ps ih =>
+    intro vs b
+    obtain ⟨n, t⟩ := p
+    cases vs with
+    | nil => rfl
+    | cons v vs =>
+      simp only [bindPayload]
+      split
+      · rw [setVar_ov, ih]
+      · rfl
+
+/-- the same for an event handler that is stopped while it runs: what it did is an initial part of what
+the uninterrupted handler run does -/
+theorem stopped_handler_effects_are_a_prefix (k : Nat) (fuel : Nat) (name : Str) (payload : List (Val F)) (b : St F)
+    (hb : b.stopAt = none) :
+    ((handleEvent ops ext prog fuel name payload { b with stopAt := some k }).1 = (handleEvent ops ext prog fuel name payload b).1 ∧
+      ∃ x, (handleEvent ops ext prog fuel name payload { b with stopAt := some k }).2
+        = ov (some k) x (handleEvent ops ext prog fuel name payload b).2) ∨
+    ((handleEvent ops ext prog fuel name payload { b with stopAt := some k }).1 = .err .stopped ∧
+      (handleEvent ops ext prog fuel name payload { b with stopAt := some k }).2.stopped = true ∧
+      effects (handleEvent ops ext prog fuel name payload { b with stopAt := some k }).2
+        <+: effects (handleEvent ops ext prog fuel name payload b).2) := by
+  rw [← ov_false (some k) b]
+  unfold handleEvent
+  cases prog.handlers.find? (fun h => h.name == name) with
+  | none => exact Or.inl ⟨rfl, false, rfl⟩
+  | some h =>
+    simp only
+    split
+    · exact Or.inl ⟨rfl, false, rfl⟩
+    · have e1 : ({ ov (some k) false b with locals := [[]] } : St F) = ov (some k) false { b with locals := [[]] } := rfl
+      rw [e1, bindPayload_ov]
+      cases hbp : bindPayload h.params payload { b with locals := [[]] } with
+      | none => exact Or.inl ⟨rfl, false, rfl⟩
+      | some b2 =>
+        have hb2 : b2.stopAt = none := by
+          have := (bindPayload_frame h.params payload _ b2 hbp).stopAt
+          exact this.trans hb
+        simp only [Option.map_some]
+        have hr := (two_runs ops ext prog (some k) fuel).block h.body b2 false hb2
+        generalize execBlockNode ops ext prog fuel h.body (ov (some k) false b2) = ra at hr ⊢
+        generalize execBlockNode ops ext prog fuel h.body b2 = rb at hr ⊢
+        cases hr with
+        | ok c x2 a t ha ht => subst ha; exact Or.inl ⟨rfl, x2, rfl⟩
+        | err o x2 a t ha ht => subst ha; exact Or.inl ⟨rfl, x2, rfl⟩
+        | stop s rb hs htr =>
+          cases rb with
+          | err o t => exact Or.inr ⟨rfl, hs, TrLe.prefix htr⟩
+          | ok c t => exact Or.inr ⟨rfl, hs, TrLe.prefix htr⟩
+
+/-! Non-vacuity of the second alternative: two `cls` calls, the flag raised during the second yield — the
+stopped run has done one of the two effects of the uninterrupted run -/
+def twoCls : Program Int := ⟨[], [], [.callS (.call (lit "cls") []), .callS (.call (lit "cls") [])]⟩
+example : (runProgram intOps ⟨fun _ _ => none⟩ twoCls 10 { stopAt := some 2 }).1 = .err .stopped ∧
+    (runProgram intOps ⟨fun _ _ => none⟩ twoCls 10 { stopAt := some 2 }).2.trace.length = 1 ∧
+    (runProgram intOps ⟨fun _ _ => none⟩ twoCls 10 {}).1 = .ok ∧
+    (runProgram intOps ⟨fun _ _ => none⟩ twoCls 10 {}).2.trace.length = 2 := by decide
 
 /-! Non-vacuity: states with and without the flag -/
 example : ∃ st : St Int, st.stopped = true ∧ tick st = none := ⟨{ stopped := true }, rfl, rfl⟩
